@@ -7,6 +7,7 @@ import numpy
 import emsarray  # noqa: F401
 from coqio import Some, coq_eval_sharded, to_coq
 import clipcommon as cc
+from hutil import attempt
 
 
 def run(ctx):
@@ -32,6 +33,24 @@ def run(ctx):
                 ctx.report('property', f.error, case)
                 continue
             out, target = f.out, f.target
+            # clip() in one step must give what make_clip_mask + apply_clip_mask gave (first clip of each dataset)
+            if f.history == 'direct' and f.buffer == 0:
+                import tempfile
+                work2 = tempfile.mkdtemp(prefix='clip_one_step_', dir=tmp)
+                with warnings.catch_warnings():
+                    warnings.simplefilter('ignore')
+                    one = attempt(lambda: f.ds.ems.clip(f.geom, work2, buffer=f.buffer))
+                    if one[0] == 'ok':
+                        one = attempt(lambda: one[1].load())
+                ctx.count('clip_in_one_step')
+                if one[0] != 'ok':
+                    ctx.report('property', f'dataset.ems.clip failed ({one[1]}) where make_clip_mask + apply_clip_mask succeed', case)
+                else:
+                    for name in out.variables:
+                        if name not in one[1].variables or one[1][name].dims != out[name].dims or not cc.same_values(
+                                one[1][name].values, out[name].values):
+                            ctx.report('property', f'dataset.ems.clip and make_clip_mask + apply_clip_mask disagree on variable {name}', case)
+                            break
             if f.d.family != 'ugrid':
                 masks = cc.grid_masks(f)
                 bounds = cc.grid_bounds(masks)
